@@ -362,7 +362,9 @@ func (rw *rewriter) accesses(s ast.Stmt) []ast.Stmt {
 	writes := map[*ast.SelectorExpr]bool{}
 	markLHS := func(e ast.Expr) {
 		if ix, ok := ast.Unparen(e).(*ast.IndexExpr); ok {
-			if f := rw.mapField(ix.X); f != nil {
+			// m[k] = v changes the map the field holds; s[i] = v changes an element
+			// and only reads the field (the slice header) - elements are not tracked
+			if f := rw.mapField(ix.X); f != nil && isMap(rw.info.TypeOf(ix.X)) {
 				writes[f] = true
 			}
 		}
@@ -393,7 +395,7 @@ func (rw *rewriter) accesses(s ast.Stmt) []ast.Stmt {
 			case *ast.CallExpr:
 				if id, ok := ast.Unparen(v.Fun).(*ast.Ident); ok && len(v.Args) > 0 {
 					if b, isB := rw.info.Uses[id].(*types.Builtin); isB && (b.Name() == "delete" || b.Name() == "clear") {
-						if f := rw.mapField(v.Args[0]); f != nil {
+						if f := rw.mapField(v.Args[0]); f != nil && isMap(rw.info.TypeOf(v.Args[0])) {
 							writes[f] = true
 						}
 					}
@@ -441,6 +443,14 @@ func (rw *rewriter) accesses(s ast.Stmt) []ast.Stmt {
 }
 
 // funcLits instruments the bodies of all function literals inside e.
+func isMap(t types.Type) bool {
+	if t == nil {
+		return true // unknown: keep the stricter reading
+	}
+	_, ok := t.Underlying().(*types.Map)
+	return ok
+}
+
 func (rw *rewriter) funcLits(e ast.Node) {
 	if e == nil {
 		return
